@@ -575,6 +575,11 @@ func run(c hx.Config) error {
 		}
 	}
 
+	// HISTORIES of SetConfig calls: how the global configuration is reached is part of the configuration space.
+	if err := histories(c, o, lvs, wrs); err != nil {
+		return err
+	}
+
 	// raw issues as the library hands them to a global error map (real Properties), captured by a recording map
 	core.SetConfig(nil)
 	core.SetConfig(&core.ZodConfig{CustomError: func(raw core.ZodRawIssue) string {
@@ -645,4 +650,129 @@ func run(c hx.Config) error {
 		return err
 	}
 	return o.Close(map[string]any{"sites": len(lvs) * len(wrs), "locales": len(locs), "kinds": len(kinds)})
+}
+
+// ---------------------------------------------------------------- SetConfig histories
+
+// One call: R = SetConfig(nil); S<c><l> = SetConfig(&ZodConfig{CustomError: c, LocaleError: l}),
+// c in - A B a b, l in - L M l m ("-" = nil field; an upper-case map answers "CUS-<tag>"/"LOC-<tag>",
+// a lower-case one answers "").
+var histCalls = func() []string {
+	cs := []string{"R"}
+	for _, c := range "-ABab" {
+		for _, l := range "-LMlm" {
+			cs = append(cs, "S"+string(c)+string(l))
+		}
+	}
+	return cs
+}()
+
+func histMap(prefix string, tag byte) core.ZodErrorMap {
+	if tag == '-' {
+		return nil
+	}
+	if tag >= 'a' && tag <= 'z' {
+		return constant("")
+	}
+	return constant(prefix + string(tag))
+}
+
+func applyHistory(h []string) {
+	core.SetConfig(nil) // the state init() leaves
+	for _, call := range h {
+		if call == "R" {
+			core.SetConfig(nil)
+			continue
+		}
+		core.SetConfig(&core.ZodConfig{CustomError: histMap("CUS-", call[1]), LocaleError: histMap("LOC-", call[2])})
+	}
+}
+
+func histories(c hx.Config, o *hx.Out, lvs []leaf, wrs []wrapper) error {
+	defer core.SetConfig(nil)
+	pickLeaf := map[string]bool{"small-string": true, "multiple-int": true, "format-email": true, "type-string": true,
+		"format-uuid-type": true, "union": true, "small-slice": true, "type-nonoptional": true, "value-enum": true, "custom-refine-int": true}
+	type st struct {
+		lf leaf
+		w  wrapper
+	}
+	var sites []st
+	for _, lf := range lvs {
+		if !pickLeaf[lf.id] {
+			continue
+		}
+		for _, w := range wrs {
+			if w.id == "top" || w.id == "slice-element" || w.id == "record-value" {
+				sites = append(sites, st{lf, w})
+			}
+		}
+	}
+	probe := func(s st, h []string) {
+		applyHistory(h)
+		var err error
+		winner := "n"
+		if p := hx.Safely(func() { _, err = s.w.wrap(s.lf.build(nil, nil)).ParseAny(s.w.in(s.lf.input)) }); p != "" {
+			winner = "panic"
+		} else {
+			var ze *gozod.ZodError
+			if err != nil && gozod.IsZodError(err, &ze) {
+				if is, ok := findIssue(ze.Issues, s.lf.code); ok {
+					switch {
+					case strings.HasPrefix(is.Message, "CUS-"):
+						winner = "g" + is.Message[4:]
+					case strings.HasPrefix(is.Message, "LOC-"):
+						winner = "l" + is.Message[4:]
+					case is.Message == "":
+						winner = "e"
+					default:
+						winner = "d"
+					}
+				}
+			}
+		}
+		o.Emit(fmt.Sprintf("c18 hist %s@%s %s # SetConfig(nil); then the calls in order (R = SetConfig(nil), S<c><l> = SetConfig(&ZodConfig{CustomError: c, LocaleError: l}), - = nil, upper case answers its tag, lower case answers \"\"); then %s with S = %s",
+			s.lf.id, s.w.id, strings.Join(h, ","), s.w.desc, s.lf.repro), winner)
+		o.Count(fmt.Sprintf("hist:len%d", len(h)))
+	}
+	// exhaustive short histories
+	maxLen := 2
+	if c.Thorough() {
+		maxLen = 3
+	}
+	var rec func(h []string)
+	rec = func(h []string) {
+		if len(h) > 0 {
+			for i, s := range sites {
+				if c.Thorough() || len(h) < 2 || (i+len(h[0])+int(h[0][len(h[0])-1])+int(h[1][len(h[1])-1]))%3 == 0 {
+					probe(s, h)
+				}
+			}
+		}
+		if len(h) == maxLen {
+			return
+		}
+		for _, call := range histCalls {
+			rec(append(append([]string{}, h...), call))
+		}
+	}
+	rec(nil) // quick: every history of length 1, a third of those of length 2, on every site; thorough: all of length <= 3
+	// random longer histories
+	r := hx.NewRng(c.Seed ^ 0x18c0ffee)
+	n := 4000
+	if c.Thorough() {
+		n = 60000
+	}
+	for i := 0; i < n; i++ {
+		l := 3 + r.Intn(5)
+		h := make([]string, l)
+		for j := range h {
+			if r.Chance(8) {
+				h[j] = "R"
+			} else {
+				h[j] = hx.Pick(r, histCalls)
+			}
+		}
+		probe(hx.Pick(r, sites), h)
+	}
+	return nil
 }
